@@ -70,6 +70,8 @@ class Ctx:
         self.inputs = {}  # name -> declared symbolic input (for model extraction)
         self.notes = []
         self.deferred = []  # definitional facts used only when proving (not for path feasibility)
+        self.memo = {}
+        self.evt = 0
         # per path
         self.prefix = []
         self.pos = 0
@@ -87,6 +89,13 @@ class Ctx:
         self.solver.reset()
         self.solver.set("timeout", self.timeout_ms)
         self.paths += 1
+        self.evt = 0
+
+    def _memo_key(self, kind):
+        """paths are deterministic re-executions: the n-th solver event after the same consumed decision prefix is the same
+        query, so a result established on an earlier path (obligation discharged, assumption feasible) is reused"""
+        self.evt += 1
+        return (kind, self.evt, repr(self.prefix[: self.pos]))
 
     def _check(self, *extra):
         t0 = time.time()
@@ -159,9 +168,13 @@ class Ctx:
         if z3.is_true(cond):
             return
         self.solver.add(cond)
+        key = self._memo_key("assume")
+        if self.memo.get(key) == "feasible":
+            return
         if z3.is_false(cond) or self._check() == z3.unsat:
             self.ended_by_assume += 1
             raise PathEnd("assume infeasible")
+        self.memo[key] = "feasible"
 
     def defer_fact(self, cond):
         """definition of an opaque value: over-approximates feasibility (sound for proofs),
@@ -192,7 +205,12 @@ class Ctx:
             return st
         cond = z3.simplify(cond)
         t0 = time.time()
+        key = self._memo_key("prove:" + label)
+        if self.memo.get(key) == "discharged":
+            self.solver.add(cond)        # same obligation as on an earlier path with this decision prefix: already recorded
+            return "discharged"
         if z3.is_true(cond):
+            self.memo[key] = "discharged"
             self.obligations.append(Obligation(label, "discharged", path, "simplifier", 0.0, None, None))
             return "discharged"
         m_def = None
@@ -215,6 +233,7 @@ class Ctx:
             m_def = None
         dt = time.time() - t0
         if r == z3.unsat:
+            self.memo[key] = "discharged"
             self.obligations.append(Obligation(label, "discharged", path, "z3", dt, None, None))
             self.solver.add(cond)
             return "discharged"
@@ -816,6 +835,12 @@ class SymBytes:
     def __len__(self):
         return len(self.items)
 
+    def __getattr__(self, name):
+        # a bytes method the model does not implement is a limit of the engine (undecided), never an observable AttributeError
+        if name.startswith("__") or name in ("items", "mutable", "mem", "addr"):
+            raise AttributeError(name)
+        raise Unsupported("bytes.%s on symbolic bytes" % name)
+
     def __iter__(self):
         return iter(self.items)
 
@@ -902,6 +927,20 @@ class SymBytes:
     def split(self, sep=None, maxsplit=-1):
         if not isinstance(sep, (bytes, bytearray)) or len(sep) != 1:
             raise Unsupported("bytes.split with this separator")
+        if maxsplit == 1 and len(self.items) > 8:
+            # position of the first separator as ONE n-ary decision (instead of one fork per byte)
+            n_ = len(self.items)
+            t = _bv(n_)
+            for i in range(n_ - 1, -1, -1):
+                e = self.items[i] == sep[0]
+                if isinstance(e, SymBool):
+                    t = z3.If(e.t, _bv(i), t)
+                elif e:
+                    t = _bv(i)
+            k = SymInt(t, 0, n_).concretize(limit=n_ + 2) if not z3.is_bv_value(z3.simplify(t)) else z3.simplify(t).as_signed_long()
+            if k == n_:
+                return [SymBytes(self.items)]
+            return [SymBytes(self.items[:k]), SymBytes(self.items[k + 1:])]
         out, cur, n = [], [], 0
         for b in self.items:
             if (maxsplit < 0 or n < maxsplit) and bool(b == sep[0]):    # forks on a proxy byte
